@@ -30,6 +30,49 @@ type Hist struct {
 	// table. The persist drains the asynchronous merger, which side-steps the known
 	// index-build race (C04-index-added-to-populated-table-loses-later-commits).
 	SyncIndexBuild bool
+	// Steps is the structured history (for replay and shrinking)
+	Steps []Step
+}
+
+// Step is one recorded step: an admin request, a transaction, a forced persist or a
+// close/reopen.
+type Step struct {
+	Kind string // admin txn persist reopen
+	Req  *Req   `json:",omitempty"`
+	Ops  []Op   `json:",omitempty"`
+	End  string `json:",omitempty"`
+}
+
+// Replay executes recorded steps on the current database (model and real side).
+// reopen is called for "reopen" steps and must close and reopen h.Real.
+func (h *Hist) Replay(steps []Step, reopen func() error) error {
+	for _, st := range steps {
+		switch st.Kind {
+		case "admin":
+			h.DoAdmin(st.Req)
+		case "txn":
+			// operations whose row no longer exists (because an earlier step was removed) are dropped
+			var ops []Op
+			w := h.M.Clone()
+			for _, o := range st.Ops {
+				if t := w.Tables[o.Table]; t == nil || t.FirstKey() < 0 || (o.Kind != "ins" && t.findByKey(o.Key) < 0) {
+					continue
+				}
+				w.ApplyOp(&o)
+				ops = append(ops, o)
+			}
+			if len(ops) > 0 {
+				h.DoTxn(ops, st.End)
+			}
+		case "persist":
+			h.Persist()
+		case "reopen":
+			if err := reopen(); err != nil {
+				return err
+			}
+		}
+	}
+	return nil
 }
 
 func NewHist(r *rand.Rand, real *Real) *Hist {
@@ -73,6 +116,7 @@ func errClass(e any) string {
 // DoAdmin runs an admin request on both sides.
 // accepted: the real database accepted it. modelErr: why the model rejects it (nil = valid).
 func (h *Hist) DoAdmin(q *Req) (accepted bool, modelErr error, realErr any) {
+	h.Steps = append(h.Steps, Step{Kind: "admin", Req: q})
 	text := q.Text()
 	if h.SyncIndexBuild && len(q.Idx) > 0 && (q.Kind == "altercreate" || q.Kind == "ensure") {
 		if t := h.M.Tables[q.Table]; t != nil && len(t.Rows) > 0 {
@@ -109,6 +153,7 @@ func (h *Hist) DoAdmin(q *Req) (accepted bool, modelErr error, realErr any) {
 
 // DoTxn runs one transaction on both sides. end: commit, abort or leave.
 func (h *Hist) DoTxn(ops []Op, end string) TxnResult {
+	h.Steps = append(h.Steps, Step{Kind: "txn", Ops: ops, End: end})
 	trial := h.M.Clone()
 	pred := -1
 	var predErr error
@@ -157,6 +202,7 @@ func (h *Hist) DoTxn(ops []Op, end string) TxnResult {
 // Persist forces a persist and returns the persisted state.
 func (h *Hist) Persist() *db19.DbState {
 	h.NPersist++
+	h.Steps = append(h.Steps, Step{Kind: "persist"})
 	h.logf("persist")
 	st := h.Real.DB.Persist()
 	if h.OnPersist != nil {
